@@ -49,7 +49,8 @@ func (p *Prog) exprFuncReturn(fn *ssa.Function, depth int) *ssa.Return {
 	for _, in := range body.Instrs[:len(body.Instrs)-1] {
 		switch x := in.(type) {
 		case *ssa.FieldAddr, *ssa.Field, *ssa.BinOp, *ssa.Lookup, *ssa.Index, *ssa.IndexAddr, *ssa.Convert,
-			*ssa.ChangeType, *ssa.Extract, *ssa.DebugRef, *ssa.Slice, *ssa.MakeInterface, *ssa.ChangeInterface:
+			*ssa.ChangeType, *ssa.Extract, *ssa.DebugRef, *ssa.Slice, *ssa.MakeInterface, *ssa.ChangeInterface,
+			*ssa.MakeChan, *ssa.MakeMap, *ssa.MakeSlice:
 		case *ssa.UnOp:
 			if x.Op == token.ARROW {
 				return nil
